@@ -47,6 +47,14 @@ fn bytes_of(v: &Value) -> Vec<u8> {
     v.as_array().unwrap().iter().map(|x| x.as_u64().unwrap() as u8).collect()
 }
 
+/// decode with a panic in the library reported as data
+fn dec_guarded(b: &[u8]) -> Result<Result<(PortableRegistry, usize), String>, String> {
+    let b = b.to_vec();
+    guarded(move || {
+        let mut inp = &b[..];
+        PortableRegistry::decode(&mut inp).map(|r| (r, inp.len())).map_err(|e| e.to_string())
+    })
+}
 fn layout(cases: &str, outp: &str) {
     let mut out = Out::create(outp);
     let (mut n, mut bad) = (0u64, 0u64);
@@ -61,24 +69,24 @@ fn layout(cases: &str, outp: &str) {
             mism.push(("c06", format!("encode differs from the layout at byte {at}: got {:?} expected {:?}", &enc[at.min(enc.len())..(at + 8).min(enc.len())], &want[at.min(want.len())..(at + 8).min(want.len())])));
         }
         // the independent encoder's bytes must decode to the same registry, consuming everything
-        let mut inp = &want[..];
-        match PortableRegistry::decode(&mut inp) {
-            Ok(r) => {
-                if r != reg || !inp.is_empty() {
-                    mism.push(("c06", format!("decode of the layout's bytes: equal={} left={}", r == reg, inp.len())));
+        match dec_guarded(&want) {
+            Ok(Ok((r, left))) => {
+                if r != reg || left != 0 {
+                    mism.push(("c06", format!("decode of the layout's bytes: equal={} left={}", r == reg, left)));
                 }
             }
-            Err(e) => mism.push(("c06", format!("decode of the layout's bytes failed: {e}"))),
+            Ok(Err(e)) => mism.push(("c06", format!("decode of the layout's bytes failed: {e}"))),
+            Err(p) => mism.push(("c06", format!("decode of the layout's bytes panicked: {p}"))),
         }
         // C07 on the library alone: decode(encode(r)) == r, exact consumption, with and without trailing junk
         for junk in [&[][..], &[0u8, 255, 7][..]] {
             let mut b = enc.clone();
             b.extend_from_slice(junk);
-            let mut inp = &b[..];
-            match PortableRegistry::decode(&mut inp) {
-                Ok(r) if r == reg && inp.len() == junk.len() => {}
-                Ok(r) => mism.push(("c07", format!("round trip: equal={} left={} junk={}", r == reg, inp.len(), junk.len()))),
-                Err(e) => mism.push(("c07", format!("round trip failed: {e}"))),
+            match dec_guarded(&b) {
+                Ok(Ok((r, left))) if r == reg && left == junk.len() => {}
+                Ok(Ok((r, left))) => mism.push(("c07", format!("round trip: equal={} left={} junk={}", r == reg, left, junk.len()))),
+                Ok(Err(e)) => mism.push(("c07", format!("round trip failed: {e}"))),
+                Err(p) => mism.push(("c07", format!("round trip panicked: {p}"))),
             }
         }
         if reg.encode() != enc {
@@ -218,10 +226,10 @@ fn record(seed: u64, count: usize, path: &str) {
             let junk: Vec<u8> = (0..rng.gen_range(0..4)).map(|_| rng.gen()).collect();
             let mut b = b1.clone();
             b.extend_from_slice(&junk);
-            let mut inp = &b[..];
-            let res = match PortableRegistry::decode(&mut inp) {
-                Ok(r) => json!({"ok": [{"reg": proj::registry(Mode::Wide, &r), "consumed": b.len() - inp.len()}]}),
-                Err(e) => json!({"err": e.to_string()}),
+            let res = match dec_guarded(&b) {
+                Ok(Ok((r, left))) => json!({"ok": [{"reg": proj::registry(Mode::Wide, &r), "consumed": b.len() - left}]}),
+                Ok(Err(e)) => json!({"err": e}),
+                Err(p) => json!({"err": format!("PANIC: {p}")}),
             };
             out.put(&json!({"ev": "Decode", "bytes": b, "res": res}));
         }
